@@ -1,7 +1,7 @@
 SPECIFICATION Spec
 CONSTANTS
   MaxObjs = 2
-  UIds <- UMid
+  UIds <- USmall
   RowSet <- RowsAll
   AllowDup = FALSE
   DedupInput = FALSE
